@@ -55,6 +55,8 @@ func execCase(c *wire.Case) (res *wire.Result) {
 		opRunFiles(c, res)
 	case "reader":
 		opReader(c, res)
+	case "hugerun":
+		opHugeRun(c, res)
 	case "readerbig":
 		opReaderBig(c, res)
 	case "glob":
@@ -1360,5 +1362,77 @@ func opReaderBig(c *wire.Case, res *wire.Result) {
 				counters["reads_beyond_2GiB"]++
 			}
 		}
+	}
+}
+
+// opHugeRun: one program on a text too large to ship - Texts[0] repeated Seed times, then Texts[1] - with every
+// reported match judged inside the worker against the text alone: bounds, Value, order, numbering, and the 1-based
+// line and byte column of both ends (the text is ASCII). Nothing but counters and the first difference goes back.
+func opHugeRun(c *wire.Case, res *wire.Result) {
+	res.Counters = map[string]int{}
+	v, err := libvore.Compile(string(c.Src))
+	if err != nil {
+		res.Mismatch = "compile: " + err.Error()
+		return
+	}
+	text := strings.Repeat(string(c.Texts[0]), int(c.Seed)) + string(c.Texts[1])
+	var ms engine.Matches
+	var p any
+	func() {
+		defer func() { p = recover() }()
+		ms = v.Run(text)
+	}()
+	if p != nil {
+		res.Panic = panicInfo(p)
+		return
+	}
+	res.Counters["text_bytes_div_1024"] = len(text) >> 10
+	res.Counters["matches"] = len(ms)
+	// line and column of an offset, walking forward from the last place asked about
+	lastOff, lastLine, lastBol := 0, 1, 0
+	lineCol := func(off int) (int, int) {
+		if off < lastOff {
+			lastOff, lastLine, lastBol = 0, 1, 0
+		}
+		seg := text[lastOff:off]
+		if n := strings.Count(seg, "\n"); n > 0 {
+			lastLine += n
+			lastBol = lastOff + strings.LastIndexByte(seg, '\n') + 1
+		}
+		lastOff = off
+		return lastLine, off - lastBol + 1
+	}
+	prevEnd := 0
+	for i := range ms {
+		m := &ms[i]
+		s, e := m.Offset.Start, m.Offset.End
+		if s < prevEnd || e <= s || e > len(text) {
+			res.Mismatch = fmt.Sprintf("match %d has offsets [%d,%d), the one before ended at %d, the text has %d bytes", i, s, e, prevEnd, len(text))
+			return
+		}
+		if m.Value != text[s:e] {
+			res.Mismatch = fmt.Sprintf("match %d: Value (%d bytes) is not text[%d:%d]", i, len(m.Value), s, e)
+			return
+		}
+		if m.MatchNumber != i+1 {
+			res.Mismatch = fmt.Sprintf("match %d is numbered %d", i, m.MatchNumber)
+			return
+		}
+		l1, c1 := lineCol(s)
+		l2, c2 := lineCol(e)
+		if m.Line.Start != l1 || m.Line.End != l2 || m.Column.Start != c1 || m.Column.End != c2 {
+			res.Mismatch = fmt.Sprintf("match %d [%d,%d): line {%d %d} column {%d %d}, the text says line {%d %d} column {%d %d}", i, s, e, m.Line.Start, m.Line.End, m.Column.Start, m.Column.End, l1, l2, c1, c2)
+			return
+		}
+		if c2 > 1<<31 || c1 > 1<<31 {
+			res.Counters["columns_beyond_2^31"]++
+		}
+		if l2 > 1<<31 {
+			res.Counters["lines_beyond_2^31"]++
+		}
+		if e > 1<<31 {
+			res.Counters["offsets_beyond_2^31"]++
+		}
+		prevEnd = e
 	}
 }
